@@ -26,6 +26,7 @@ type gramCfg struct {
 	inStr  byte // 0, '(' or '<'
 	depth  int8
 	inText bool
+	assume string // ";cond=T;cond=F" outcomes of repeated side-effect-free conditions
 }
 
 type gramState map[gramCfg]bool // nil = unreachable
@@ -131,18 +132,22 @@ func (g *gramInterp) complete(cfg gramCfg, pos string) (gramCfg, bool) {
 		g.fail("token "+tok, pos, fmt.Sprintf("the emitted fragments can form the token %q, which is not an operator of the %s content-stream vocabulary", tok, g.spec.name))
 		return cfg, true
 	}
+	switch {
+	case tok == g.spec.saveOp:
+		if cfg.depth < 6 {
+			cfg.depth++
+		}
+		return cfg, true
+	case tok == g.spec.restoreOp:
+		if cfg.depth <= 0 {
+			g.fail("unbalanced "+tok, pos, "a "+tok+" (restore) can be emitted without a matching "+g.spec.saveOp+" (save)")
+		} else {
+			cfg.depth--
+		}
+		return cfg, true
+	}
 	if g.spec.hasText {
 		switch {
-		case tok == "q":
-			if cfg.depth < 6 {
-				cfg.depth++
-			}
-		case tok == "Q":
-			if cfg.depth <= 0 {
-				g.fail("unbalanced Q", pos, "a Q (restore) can be emitted without a matching q (save)")
-			} else {
-				cfg.depth--
-			}
 		case tok == "BT":
 			if cfg.inText {
 				g.fail("nested BT", pos, "BT can be emitted inside a text object")
@@ -172,6 +177,7 @@ func (g *gramInterp) emit(in gramState, text string, pos string) gramState {
 		return nil
 	}
 	g.writes++
+	text = strings.NewReplacer("<<", " ", ">>", " ").Replace(text)
 	out := gramState{}
 	for cfg := range in {
 		cur := cfg
@@ -250,6 +256,37 @@ func (g *gramInterp) body(b *ast.BlockStmt, in gramState, name string) gramState
 	if in == nil {
 		return nil
 	}
+	// the caller's assumptions are about the caller's variables: run the callee once per
+	// assumption group with the assumptions set aside, and put them back on its exits
+	groups := map[string]gramState{}
+	for cfg := range in {
+		a := cfg.assume
+		cfg.assume = ""
+		if groups[a] == nil {
+			groups[a] = gramState{}
+		}
+		groups[a][cfg] = true
+	}
+	keys := make([]string, 0, len(groups))
+	for k := range groups {
+		keys = append(keys, k)
+	}
+	sort.Strings(keys)
+	var out gramState
+	for _, k := range keys {
+		ex := g.bodyGroup(b, groups[k], name)
+		for cfg := range ex {
+			cfg.assume = k
+			if out == nil {
+				out = gramState{}
+			}
+			out[cfg] = true
+		}
+	}
+	return out
+}
+
+func (g *gramInterp) bodyGroup(b *ast.BlockStmt, in gramState, name string) gramState {
 	g.stack = append(g.stack, name)
 	locals := map[types.Object]*ast.FuncLit{}
 	// closures bound to local variables
@@ -267,6 +304,47 @@ func (g *gramInterp) body(b *ast.BlockStmt, in gramState, name string) gramState
 	})
 	g.locals = append(g.locals, locals)
 	var exits gramState
+	// conditions that occur more than once in this body are tracked path-sensitively
+	condCount := map[string]int{}
+	ast.Inspect(b, func(n ast.Node) bool {
+		if is, ok := n.(*ast.IfStmt); ok && pureCond(is.Cond) {
+			condCount[types.ExprString(is.Cond)]++
+		}
+		return true
+	})
+	entry := in
+	dropAssumptions := func(s gramState, names map[string]bool) gramState {
+		if s == nil {
+			return nil
+		}
+		out := gramState{}
+		for cfg := range s {
+			if cfg.assume != "" {
+				var keep []string
+				for _, part := range strings.Split(cfg.assume, ";") {
+					if part == "" {
+						continue
+					}
+					cond := part[:len(part)-2]
+					hit := false
+					for n := range names {
+						if condMentions(cond, n) {
+							hit = true
+						}
+					}
+					if !hit {
+						keep = append(keep, part)
+					}
+				}
+				cfg.assume = ""
+				if len(keep) > 0 {
+					cfg.assume = ";" + strings.Join(keep, ";")
+				}
+			}
+			out[cfg] = true
+		}
+		return out
+	}
 	fl := &core.Flow[gramState]{
 		Join:   gramJoin,
 		Equal:  gramEqual,
@@ -275,19 +353,110 @@ func (g *gramInterp) body(b *ast.BlockStmt, in gramState, name string) gramState
 		Exit:   func(at ast.Node, s gramState) { exits = gramJoin(exits, s) },
 		Expr:   func(e ast.Expr, s gramState) gramState { return g.expr(e, s) },
 		Stmt: func(st ast.Stmt, s gramState) (gramState, bool) {
-			// binding a closure to a variable does not run it
-			if as, ok := st.(*ast.AssignStmt); ok && len(as.Rhs) == 1 {
-				if _, ok := as.Rhs[0].(*ast.FuncLit); ok {
-					return s, true
+			switch x := st.(type) {
+			case *ast.AssignStmt:
+				// binding a closure to a variable does not run it
+				if len(x.Rhs) == 1 {
+					if _, ok := x.Rhs[0].(*ast.FuncLit); ok {
+						return s, true
+					}
 				}
+				names := map[string]bool{}
+				for _, l := range x.Lhs {
+					names[types.ExprString(l)] = true
+					if id := core.RootIdent(l); id != nil {
+						names[id.Name] = true
+					}
+				}
+				for _, rhs := range x.Rhs {
+					s = g.expr(rhs, s)
+				}
+				return dropAssumptions(s, names), true
+			case *ast.IncDecStmt:
+				return dropAssumptions(s, map[string]bool{types.ExprString(x.X): true}), true
 			}
 			return s, false
 		},
+		Split: func(cond ast.Expr, s gramState) (gramState, gramState, bool) {
+			key := types.ExprString(cond)
+			if condCount[key] < 2 || s == nil {
+				return nil, nil, false
+			}
+			t, f := gramState{}, gramState{}
+			for cfg := range s {
+				switch {
+				case strings.Contains(cfg.assume, ";"+key+"=T"):
+					t[cfg] = true
+				case strings.Contains(cfg.assume, ";"+key+"=F"):
+					f[cfg] = true
+				default:
+					ct, cf := cfg, cfg
+					ct.assume += ";" + key + "=T"
+					cf.assume += ";" + key + "=F"
+					t[ct] = true
+					f[cf] = true
+				}
+			}
+			var tt, ff gramState = t, f
+			if len(t) == 0 {
+				tt = nil
+			}
+			if len(f) == 0 {
+				ff = nil
+			}
+			return tt, ff, true
+		},
 	}
-	fl.Run(b, in)
+	fl.Run(b, entry)
+	// leaving the body: the callee's assumptions are about its own variables
+	if exits != nil {
+		out := gramState{}
+		for cfg := range exits {
+			cfg.assume = ""
+			out[cfg] = true
+		}
+		exits = out
+	}
 	g.locals = g.locals[:len(g.locals)-1]
 	g.stack = g.stack[:len(g.stack)-1]
 	return exits
+}
+
+// pureCond: a condition made of identifiers, selectors, constants, comparisons, !, && and ||
+// and calls of niladic methods on identifiers/selectors (style.HasFill()).
+func pureCond(e ast.Expr) bool {
+	ok := true
+	ast.Inspect(e, func(n ast.Node) bool {
+		switch x := n.(type) {
+		case *ast.CallExpr:
+			if len(x.Args) != 0 {
+				ok = false
+			}
+		case *ast.FuncLit, *ast.TypeAssertExpr, *ast.IndexExpr:
+			ok = false
+		}
+		return ok
+	})
+	return ok
+}
+
+// condMentions reports whether the printed condition mentions the (possibly dotted) name as a whole word.
+func condMentions(cond, name string) bool {
+	for i := 0; i+len(name) <= len(cond); i++ {
+		if cond[i:i+len(name)] != name {
+			continue
+		}
+		before := i == 0 || !isWordByte(cond[i-1])
+		after := i+len(name) == len(cond) || !isWordByte(cond[i+len(name)])
+		if before && after {
+			return true
+		}
+	}
+	return false
+}
+
+func isWordByte(b byte) bool {
+	return b == '_' || b >= '0' && b <= '9' || b >= 'a' && b <= 'z' || b >= 'A' && b <= 'Z'
 }
 
 func (g *gramInterp) onStack(name string) bool {
@@ -537,8 +706,8 @@ func runGrammar(c *core.Ctx, r *core.Report, spec *gramSpec, rule string, entrie
 			if spec.hasText && fin.inText {
 				g.fail("BT without ET", pos, "the function can return inside a text object (BT without ET)")
 			}
-			if spec.hasText && fin.depth != 0 {
-				g.fail("q without Q", pos, "the function can return with an unbalanced q (save) on the stack")
+			if fin.depth != 0 {
+				g.fail(spec.saveOp+" without "+spec.restoreOp, pos, "the function can return with an unbalanced "+spec.saveOp+" (save) on the stack")
 			}
 		}
 		r.Count(rule+":writes", g.writes)
